@@ -26,8 +26,11 @@
 (*      buf      _decoded_buffer: decoded but not yet delivered                                    *)
 (*      ihold    __iter__'s pending line fragments                                                 *)
 (*    out = delivered prefix.                                                                      *)
-(*  - KnownDefects enables the NAMED deviations of the code at the pinned commit; with {} the      *)
-(*    model is the design the findings ask for and every clause holds.                             *)
+(*  - KnownDefects enables NAMED deviations; with {} the model is the design the findings ask    *)
+(*    for and every clause holds.  D6, D7, D11, F1, F3 were found at the pinned commit and have    *)
+(*    since been repaired in /repo: they remain as must-be-refuted runs (TLC must exhibit the      *)
+(*    clause each one breaks, and a tree that still has one of them fails the check).  F2 and F4   *)
+(*    are recorded findings: MC_Body!AsIs = {F2, F4} is the model of the code as it is.            *)
 (*      D6  read() after a partial read(n) does not prepend the decoded buffer                     *)
 (*      D7  zstd: a feed that ends exactly on a frame end leaves a finished decompressobj behind    *)
 (*      D11 negative chunk size reaches fp.read(<0): raw ValueError / foreign bytes via read1      *)
